@@ -415,19 +415,24 @@ theorem afterVm_good {s : St} (h : Good cfg s) (n : Nat) (vm' : SelVM.Vm) (infos
     obtain ⟨hw, hrm⟩ := startMatchingInfos_good infos hd h.wf
     exact ⟨hw, fun ho => ⟨by show d.removedContent = 0; rw [hrm]; exact (h.obs ho).1, (h.obs ho).2⟩⟩
 
+theorem startTagCore_good {s : St} (h : Good cfg s) (name : LocalName) (ns : Model.Ns) :
+    Good cfg (startTagCore s name ns).1 := by
+  unfold startTagCore
+  split
+  · exact h
+  · rename_i vm _
+    split
+    · exact h
+    · dsimp only
+      split <;> exact afterVm_good h _ _ _
+    · exact h.of_eq rfl rfl
+
 theorem startTag_good {s : St} (h : Good cfg s) (name : LocalName) (ns : Model.Ns) :
     Good cfg (startTag s name ns).1 := by
   unfold startTag
   split
   · exact h
-  · split
-    · exact h
-    · rename_i vm _
-      split
-      · exact h
-      · dsimp only
-        split <;> exact afterVm_good h _ _ _
-      · exact h.of_eq rfl rfl
+  · exact startTagCore_good (s := { s with ord := s.ord + 1 }) (h.of_eq rfl rfl) name ns
 
 theorem auxInfo_good {s : St} (h : Good cfg s) (info : AuxInfo) : Good cfg (auxInfo s info).1 := by
   unfold auxInfo
